@@ -191,6 +191,15 @@ def run_case(ctx, case):
     if errs:
         ctx.violation("c19_explicit_size_not_honoured",
                       {"params": p, "errors": errs[:5], "asked": [J, M], "instance": jobs})
+    # names stay unique also when sizes are given explicitly, repeatedly
+    g5 = make(p)
+    Jx = max(2, kr[1]); Mx = max(1, kr[1])
+    if p["allow_less_jobs_than_machines"] or Jx >= Mx:
+        nm = [g5.generate(num_jobs=Jx, num_machines=Mx).name, g5.generate().name,
+              g5.generate(num_jobs=Jx, num_machines=Mx).name, g5.generate(num_jobs=Jx, num_machines=Mx).name]
+        ctx.count("explicit_size_name_checks")
+        if len(set(nm)) != len(nm):
+            ctx.violation("c19_name_reused", {"params": p, "names": nm, "where": "explicit sizes"})
     # only one size given explicitly: the other one is drawn from its range; a request that
     # cannot be honoured may be refused with ValidationError, never answered out of range
     from job_shop_lib.exceptions import ValidationError
